@@ -150,11 +150,13 @@ def finalStatus (guardExit : Bool) (st : Status) : Status :=
 def integrate (cfg : Cfg α) (s : Sys α) (target : α) (orc : Oracle α) (fuel : Nat) : LoopOut α :=
   if s.crashed then { sys := s, reqs := [], guardExit := false, iters := 0 } else
   if absC (target - s.tcur) < cfg.eps then { sys := s, reqs := [], guardExit := true, iters := 0 } else
+  -- a new integration supersedes the outcome of an earlier failed or event-terminated call
+  let st0 : Status := if s.status == 2 ∨ s.status == 3 ∨ s.status == 4 then 0 else s.status
   let dt2 := initialDt cfg s target
   match allocSteps (target - s.tcur) dt2 with
-  | none => { sys := { s with dt := dt2, crashed := true }, reqs := [], guardExit := false, iters := 0 }
+  | none => { sys := { s with dt := dt2, status := st0, crashed := true }, reqs := [], guardExit := false, iters := 0 }
   | some n =>
-    let out := loop cfg target orc fuel 0 { s with dt := dt2, cap := s.cap + n } []
+    let out := loop cfg target orc fuel 0 { s with dt := dt2, cap := s.cap + n, status := st0 } []
     { out with sys := { out.sys with status := finalStatus out.guardExit out.sys.status, cap := out.sys.ts.length } }
 
 /-- `ode.dt = v` -/
